@@ -289,6 +289,15 @@ def generate(rng: random.Random, *, features=None) -> Workflow:
                       for a in atoms_of(l["lhs"])) for l in w.lines)
         if not has_seq:
             w.lines.append({"rec": 0, "lhs": None, "rhs": t, "suicide": False})
+    # optional success only exists if the graph text says so somewhere ("t?" or "t:fail?")
+    marked = set()
+    for l in w.lines:
+        if not l["suicide"]:
+            marked.add(l["rhs"])
+        for a in atoms_of(l["lhs"]):
+            if a["out"] in ("succeeded", "failed"):
+                marked.add(a["t"])
+    w.succ_opt &= marked
     if f["future"] == "always" and not any(a["off"] > 0 for l in w.lines for a in atoms_of(l["lhs"])):
         cyc = [i for i, r in enumerate(w.recs) if r["text"].startswith(("P", "+"))]
         if cyc and len(w.tasks) >= 2:
@@ -303,7 +312,7 @@ def generate(rng: random.Random, *, features=None) -> Workflow:
                              "members": sorted(rng.sample(w.tasks, rng.randint(1, len(w.tasks))))})
     return w
 
-def make_outcome(w: Workflow, rng: random.Random, mode="complete"):
+def make_outcome(w: Workflow, rng: random.Random, mode="complete", ghosts=False):
     """Deterministic job-outcome table (task, point, submit) -> dict(submit_ok, script).
     mode 'complete': every task eventually completes its required outputs (failures only while a retry
     remains, or where failure is optional); mode 'any': arbitrary outcomes."""
@@ -348,7 +357,7 @@ def make_outcome(w: Workflow, rng: random.Random, mode="complete"):
             if r.random() < 0.2:
                 submit_ok = False
                 # the submit command reports failure although the job did reach the job runner
-                ghost = r.random() < 0.5
+                ghost = ghosts and r.random() < 0.5
             for o in customs:
                 if r.random() < 0.6:
                     script.append("msg_" + o)
